@@ -58,7 +58,9 @@ type C18Case struct {
 func genC18(t *rapid.T) *C18Case {
 	c := &C18Case{}
 	c.DenyPhase = rapid.IntRange(0, 4).Draw(t, "denyphase")
-	c.DenyStatus = rapid.SampledFrom([]int{0, 403, 401, 500, 451}).Draw(t, "denystatus")
+	// 99, 103, 1000: no final response can carry them (a configuration naming one has to be refused, or answered with
+	// some status a response can carry; what may not happen is a panic in net/http or a success status)
+	c.DenyStatus = rapid.SampledFrom([]int{0, 403, 401, 500, 451, 403, 401, 500, 451, 99, 103, 1000}).Draw(t, "denystatus")
 	switch rapid.IntRange(0, 5).Draw(t, "disr") {
 	case 0:
 		c.Disr = "redirect"
@@ -340,6 +342,11 @@ func c18SharedServer() *httptest.Server {
 func checkC18(c *C18Case) Result {
 	out := Result{}
 	r, f := c.run()
+	unusableStatus := c.DenyPhase > 0 && c.DenyStatus != 0 && (c.DenyStatus < 200 || c.DenyStatus > 999)
+	if f != nil && unusableStatus && strings.Contains(f.Msg, "configuration rejected") {
+		out.Labels = append(out.Labels, "unusable-status-refused")
+		return out
+	}
 	if f != nil {
 		if strings.Contains(f.Msg, "failed to listen on a port") || strings.Contains(f.Msg, "cannot assign requested address") || strings.Contains(f.Msg, "address already in use") {
 			// the machine ran out of ports: nothing was learnt about the middleware
@@ -369,6 +376,11 @@ func checkC18(c *C18Case) Result {
 		}
 	case "drop":
 		denyStatus = -1 // no particular status (the connection is to be dropped): anything but a success
+	default:
+		if unusableStatus {
+			denyStatus = -1 // accepted although no response can carry it: anything but a success (and no panic)
+			out.Labels = append(out.Labels, "unusable-status-accepted")
+		}
 	}
 	statusOK := func(got, want int) bool {
 		if want == -1 {
